@@ -28,6 +28,10 @@ pub struct Case {
     pub xref_stream: bool,
     /// extra objects before the pages so that ids are not trivially small
     pub padding: u8,
+    /// the document already has named destinations: 0 none; 1 /Names /Dests tree with a valid, a dictionary-valued
+    /// and a dangling entry; 2 the same tree as the (PDF 1.1) /Dests entry of the catalog
+    #[serde(default)]
+    pub name_tree: u8,
 }
 
 struct Node {
@@ -75,7 +79,25 @@ pub fn check(case: &Case) -> Verdict {
         pages_id,
         Object::Dictionary(dictionary! { "Type" => "Pages", "Kids" => page_ids.iter().map(|p| Object::Reference(*p)).collect::<Vec<_>>(), "Count" => n_pages as i64 }),
     );
-    let catalog_id = doc.add_object(dictionary! { "Type" => "Catalog", "Pages" => pages_id });
+    let mut catalog = dictionary! { "Type" => "Catalog", "Pages" => pages_id };
+    if case.name_tree % 3 != 0 {
+        let fit = |p: ObjectId| Object::Array(vec![Object::Reference(p), "Fit".into()]);
+        let held = doc.add_object(dictionary! { "D" => fit(page_ids[0]) });
+        let tree = doc.add_object(dictionary! {
+            "Names" => vec![
+                Object::string_literal("alpha"), fit(page_ids[0]),
+                Object::string_literal("beta"), Object::Reference(held),
+                Object::string_literal("gone"), Object::Reference((9_000_000, 0)),
+                Object::string_literal("inline"), Object::Dictionary(dictionary! { "D" => fit(page_ids[n_pages - 1]) }),
+            ],
+        });
+        if case.name_tree % 3 == 1 {
+            catalog.set("Names", dictionary! { "Dests" => tree });
+        } else {
+            catalog.set("Dests", tree);
+        }
+    }
+    let catalog_id = doc.add_object(catalog);
     doc.trailer.set("Root", catalog_id);
     doc.reference_table.cross_reference_type = if case.xref_stream { lopdf::xref::XrefType::CrossReferenceStream } else { lopdf::xref::XrefType::CrossReferenceTable };
     // model + calls
@@ -250,11 +272,11 @@ pub fn strategy() -> BoxedStrategy<Case> {
         .prop_map(|c| char::from_u32(c).unwrap_or('?'));
     let bm = (vec(ch, 0..10), proptest::option::weighted(0.6, any::<u16>()), proptest::option::weighted(0.75, any::<u8>()), any::<u8>(), any::<[u8; 3]>())
         .prop_map(|(t, parent, page, format, color)| Bm { title: t.into_iter().collect(), parent, page, format, color });
-    (1u8..=8, vec(bm, 0..25), any::<bool>(), any::<u8>()).prop_map(|(n_pages, bookmarks, xref_stream, padding)| Case { n_pages, bookmarks, xref_stream, padding }).boxed()
+    (1u8..=8, vec(bm, 0..25), any::<bool>(), any::<u8>(), prop_oneof![3 => Just(0u8), 1 => Just(1u8), 1 => Just(2u8)]).prop_map(|(n_pages, bookmarks, xref_stream, padding, name_tree)| Case { n_pages, bookmarks, xref_stream, padding, name_tree }).boxed()
 }
 
 pub fn run(run: &mut Run) {
-    run.rule = "cases: documents with 1..8 pages and 0..24 add_bookmark calls, parent = none or any earlier bookmark (children attached in any order, any depth and fan-out), distinct titles over printable ASCII, C0 controls, BMP and astral characters (distinctness is get_toc's stated precondition), targets on real pages or zero pages fixed up by adjust_zero_pages. Oracle: after adjust_zero_pages + build_outline every created object has an id above the previous max_id, no existing object was overwritten, First/Last/Next/Prev/Parent/Count are mutually consistent and siblings follow insertion order under the right parent, Title decodes to the title, /A is GoTo with D [effective page /Fit]; get_toc() = preorder (title, level, page number) of the forest, in memory and after save_to + load_mem (both xref formats). non-trivial = >= 3 bookmarks, depth >= 2, >= 1 non-ASCII title; distinct by case hash.".into();
+    run.rule = "cases: documents with 1..8 pages (two in five already carrying a named-destination tree with a valid, a dictionary-valued, an inline and a dangling entry, under /Names /Dests or /Dests) and 0..24 add_bookmark calls, parent = none or any earlier bookmark (children attached in any order, any depth and fan-out), distinct titles over printable ASCII, C0 controls, BMP and astral characters (distinctness is get_toc's stated precondition), targets on real pages or zero pages fixed up by adjust_zero_pages. Oracle: after adjust_zero_pages + build_outline every created object has an id above the previous max_id, no existing object was overwritten, First/Last/Next/Prev/Parent/Count are mutually consistent and siblings follow insertion order under the right parent, Title decodes to the title, /A is GoTo with D [effective page /Fit]; get_toc() = preorder (title, level, page number) of the forest, in memory and after save_to + load_mem (both xref formats). non-trivial = >= 3 bookmarks, depth >= 2, >= 1 non-ASCII title; distinct by case hash.".into();
     run.assumptions = vec![
         "a bookmark whose effective page is (0,0) (zero page without any descendant on a real page) is not expected in the table of contents".into(),
         "effective page of a zero-page bookmark = page of its first descendant (preorder) that has one".into(),
